@@ -64,6 +64,8 @@ def oracle(line: str, obs: Obs):
                     continue
                 if m0["cmd"] == 257 and m0["R"] and f"c{t[1]}" not in first_cer and state.get(f"c{t[1]}") == "CONNECTED":
                     first_cer[f"c{t[1]}"] = m0["keys"].get("oh", "").lower() if m0["keys"].get("oh", "").lower() in peers else None
+        if t[0] == "busy":
+            t = ["adv", str(int(t[1]) * int(t[2]) // 1000)]      # (k passes of one loop call, `ms` apart: that much time goes by)
         if t[0] == "adv":
             now += int(t[1])
         elif t[0] in ("req", "stop"):
@@ -272,6 +274,12 @@ def scenarios(rng: random.Random, tier: str) -> list[str]:
                    " | tick | rx 0 " + nodegen.dwr(7203, 7204) + " | tick")
         out.append(nodegen.CONFIGS["out"] + " | start ok,ok | rx 0 " + nodegen.sized(nodegen.cea(2001, "peer1.x", 2001, 268435464), total) +
                    " | tick | rx 0 " + nodegen.dwr(7205, 7206) + " | tick")
+    # the I/O loop woken several times a second for longer than the timeout (one call of the loop function, its passes
+    # half / a quarter of a second apart): the capabilities-exchange timeouts fire all the same (real node only)
+    for k, ms in ((12, 500), (24, 250), (10, 1000)):
+        out.append(nodegen.CONFIGS["basic"] + f" | start | acc | busy {k} {ms} | tick")
+        out.append(nodegen.CONFIGS["out"] + f" | start ok,ok | busy {k} {ms} | tick")
+        out.append(nodegen.CONFIGS["basic"] + f" | start | acc | rx 0 " + nodegen.dwr(7301, 7302) + f" | busy {k} {ms} | tick")
     # random deeper
     for i in range(150 if tier == "quick" else 3000):
         cfgn = rng.choice(["basic", "two", "out", "noapp"])
